@@ -121,3 +121,26 @@ func (e *enumChooser) more() bool {
 
 	return false
 }
+
+// prefixChooser forces the first choices (used to enumerate a finite table in an outer loop
+// while the remaining parameters are drawn); the forced values are recorded like any other.
+type prefixChooser struct {
+	prefix []int
+	pos    int
+	inner  Chooser
+}
+
+func (p *prefixChooser) Int(label string, lo, hi int) int {
+	if p.pos < len(p.prefix) {
+		v := p.prefix[p.pos]
+		p.pos++
+
+		if v < lo || v > hi {
+			panic("prefixChooser: forced value out of range for " + label)
+		}
+
+		return v
+	}
+
+	return p.inner.Int(label, lo, hi)
+}
